@@ -353,3 +353,185 @@ fn native_enum_multi_verify_update_total() {
 
 #[cfg(test)]
 include!("/verif/.build/playback/core_multi_proof.inc");
+
+// ---- C07 / C02 / C05: honest proofs over real small tries, bounded native enumeration --------------
+// The reference trie below is written from docs/nomt_specification.md alone (empty = terminator, one
+// pair = its leaf hash, otherwise an internal node over the two sub-tries split by the next key
+// bit); it shares no code with build_trie, the provers or the verifiers.
+#[cfg(test)]
+mod native_trie {
+    use super::*;
+    use crate::hasher::{Blake3Hasher as H, NodeHasher};
+    use crate::trie::{InternalData, KeyPath, LeafData, Node, ValueHash, TERMINATOR};
+
+    pub fn bit(k: &KeyPath, i: usize) -> bool {
+        (k[i / 8] >> (7 - i % 8)) & 1 == 1
+    }
+
+    pub fn ref_node(items: &[(KeyPath, ValueHash)], depth: usize) -> Node {
+        match items.len() {
+            0 => TERMINATOR,
+            1 => H::hash_leaf(&LeafData { key_path: items[0].0, value_hash: items[0].1 }),
+            _ => {
+                let split = items.iter().position(|(k, _)| bit(k, depth)).unwrap_or(items.len());
+                H::hash_internal(&InternalData {
+                    left: ref_node(&items[..split], depth + 1),
+                    right: ref_node(&items[split..], depth + 1),
+                })
+            }
+        }
+    }
+
+    /// the path proof an honest prover hands out for `key` in the trie over `items` (sorted)
+    pub fn ref_prove(items: &[(KeyPath, ValueHash)], key: &KeyPath) -> PathProof {
+        let mut cur = items;
+        let mut depth = 0;
+        let mut siblings = Vec::new();
+        while cur.len() > 1 {
+            let split = cur.iter().position(|(k, _)| bit(k, depth)).unwrap_or(cur.len());
+            let (l, r) = cur.split_at(split);
+            if bit(key, depth) {
+                siblings.push(ref_node(l, depth + 1));
+                cur = r;
+            } else {
+                siblings.push(ref_node(r, depth + 1));
+                cur = l;
+            }
+            depth += 1;
+        }
+        let terminal = match cur.first() {
+            Some((k, v)) => PathProofTerminal::Leaf(LeafData { key_path: *k, value_hash: *v }),
+            None => {
+                let bits: Vec<bool> = (0..depth).map(|i| bit(key, i)).collect();
+                PathProofTerminal::Terminator(pos_from_bits(&bits))
+            }
+        };
+        PathProof { terminal, siblings }
+    }
+
+    pub fn universe() -> Vec<KeyPath> {
+        let mut ks = Vec::new();
+        for first in [0x00u8, 0x40, 0x80, 0xC0] {
+            let mut k = [0u8; 32];
+            k[0] = first;
+            ks.push(k);
+        }
+        let mut twin = [0u8; 32]; // differs from the first key in the very last bit
+        twin[31] = 1;
+        ks.push(twin);
+        let mut k = [0u8; 32];
+        k[0] = 0x80;
+        k[1] = 0x80;
+        ks.push(k);
+        ks.push([0xFF; 32]);
+        ks.sort();
+        ks
+    }
+}
+
+/// Bounded native enumeration (not a proof): every subset of a 7-key universe (128 tries; keys
+/// splitting at bits 0, 1, 8 and 255), every probe key of the universe, every non-empty set of
+/// distinct honest path proofs (up to 127 per trie), three write patterns per proof set:
+///  * [C02] `update::build_trie` over the set equals the reference root written from the specification;
+///  * [C05] the honest path proof of every key verifies against that root and confirms exactly the
+///    set's view (value for a present key, non-existence for an absent one);
+///  * [C07] the multi-proof aggregated from any ordered set of distinct path proofs verifies
+///    against the same root, answers every value / non-existence query exactly as the path proofs do
+///    (out of scope exactly for keys none of them covers), and its update verification returns the
+///    same new root as the per-path update verifier and as the reference trie of the updated set.
+#[cfg(test)]
+#[test]
+fn native_enum_multi_equals_paths_on_real_tries() {
+    use crate::hasher::Blake3Hasher as H;
+    use crate::proof::path_proof::{self, PathUpdate};
+    use crate::trie::{KeyPath, LeafData, ValueHash};
+    use native_trie::*;
+    let uni = universe();
+    let vh = |i: usize, gen: u8| -> ValueHash { [(i as u8 + 1) ^ gen; 32] };
+    let mut multi_checked = 0u64;
+    for mask in 0u32..(1 << uni.len()) {
+        let items: Vec<(KeyPath, ValueHash)> = (0..uni.len()).filter(|i| mask & (1 << i) != 0).map(|i| (uni[i], vh(i, 0))).collect();
+        let root = ref_node(&items, 0);
+        // [C02] the sub-trie builder agrees with the specification
+        let built = crate::update::build_trie::<H>(0, items.iter().cloned(), |_| {});
+        assert!(built == root, "build_trie differs from the specified trie root (key set {:#09b})", mask);
+        // ... also as a sub-trie below a shared prefix of `skip` bits
+        for skip in 1..=9usize {
+            if !items.is_empty() && items.iter().all(|(k, _)| (0..skip).all(|b| bit(k, b) == bit(&items[0].0, b))) {
+                let sub = crate::update::build_trie::<H>(skip, items.iter().cloned(), |_| {});
+                assert!(sub == ref_node(&items, skip), "build_trie(skip = {}) differs from the specified sub-trie root (key set {:#09b})", skip, mask);
+            }
+        }
+
+        // [C05] honest path proofs
+        let mut proofs: Vec<(PathProof, crate::proof::path_proof::VerifiedPathProof)> = Vec::new();
+        let mut covering: Vec<usize> = Vec::new(); // per universe key: index into `proofs`
+        for (i, k) in uni.iter().enumerate() {
+            let p = ref_prove(&items, k);
+            let v = p.verify::<H>(k.view_bits::<Msb0>(), root).unwrap_or_else(|e| panic!("honest path proof rejected: {:?} (key set {:#09b}, key {})", e, mask, i));
+            let present = mask & (1 << i) != 0;
+            assert!(v.confirm_nonexistence(k).ok() == Some(!present), "path proof: non-existence of key {} (key set {:#09b})", i, mask);
+            assert!(v.confirm_value(&LeafData { key_path: *k, value_hash: vh(i, 0) }).ok() == Some(present), "path proof: value of key {} (key set {:#09b})", i, mask);
+            assert!(v.confirm_value(&LeafData { key_path: *k, value_hash: vh(i, 0x55) }).ok() == Some(false), "path proof confirms a wrong value");
+            match proofs.iter().position(|(q, _)| q.terminal.path() == p.terminal.path()) {
+                Some(j) => covering.push(j),
+                None => {
+                    covering.push(proofs.len());
+                    proofs.push((p, v));
+                }
+            }
+        }
+        // order the distinct proofs by terminal path (what from_path_proofs asks for)
+        let mut order: Vec<usize> = (0..proofs.len()).collect();
+        order.sort_by(|a, b| proofs[*a].0.terminal.path().cmp(proofs[*b].0.terminal.path()));
+
+        // [C07] every non-empty subset of the distinct proofs
+        for q in 1u32..(1 << proofs.len()) {
+            let chosen: Vec<usize> = order.iter().cloned().filter(|j| q & (1 << j) != 0).collect();
+            let multi = MultiProof::from_path_proofs(chosen.iter().map(|j| proofs[*j].0.clone()).collect());
+            let vm = verify::<H>(&multi, root).unwrap_or_else(|e| panic!("aggregated multi-proof rejected: {:?} (key set {:#09b}, proofs {:#b})", e, mask, q));
+            for (i, k) in uni.iter().enumerate() {
+                let covered = q & (1 << covering[i]) != 0;
+                let leaf = LeafData { key_path: *k, value_hash: vh(i, 0) };
+                if covered {
+                    let pv = &proofs[covering[i]].1;
+                    assert!(vm.confirm_nonexistence(k).ok() == pv.confirm_nonexistence(k).ok() && vm.confirm_nonexistence(k).is_ok(), "multi-proof and path proof disagree on non-existence of key {} (key set {:#09b}, proofs {:#b})", i, mask, q);
+                    assert!(vm.confirm_value(&leaf).ok() == pv.confirm_value(&leaf).ok() && vm.confirm_value(&leaf).is_ok(), "multi-proof and path proof disagree on the value of key {} (key set {:#09b}, proofs {:#b})", i, mask, q);
+                } else {
+                    assert!(vm.confirm_nonexistence(k).is_err() && vm.confirm_value(&leaf).is_err(), "multi-proof answers for key {} which none of its paths covers (key set {:#09b}, proofs {:#b})", i, mask, q);
+                }
+            }
+            // updates over the covered keys: delete all / overwrite-or-insert all / alternate
+            for pattern in 0..3u8 {
+                let mut ops: Vec<(KeyPath, Option<ValueHash>)> = Vec::new();
+                for (i, k) in uni.iter().enumerate() {
+                    if q & (1 << covering[i]) == 0 { continue; }
+                    let op = match pattern {
+                        0 => None,
+                        1 => Some(vh(i, 0x77)),
+                        _ => if i % 2 == 0 { Some(vh(i, 0x33)) } else { None },
+                    };
+                    ops.push((*k, op));
+                }
+                let mut updated: Vec<(KeyPath, ValueHash)> = items.iter().cloned().filter(|(k, _)| !ops.iter().any(|(o, _)| o == k)).collect();
+                updated.extend(ops.iter().filter_map(|(k, v)| v.map(|v| (*k, v))));
+                updated.sort();
+                let want = ref_node(&updated, 0);
+                let path_updates: Vec<PathUpdate> = chosen
+                    .iter()
+                    .map(|j| PathUpdate {
+                        inner: proofs[*j].1.clone(),
+                        ops: ops.iter().cloned().filter(|(k, _)| covering[uni.iter().position(|u| u == k).unwrap()] == *j).collect(),
+                    })
+                    .filter(|u| !u.ops.is_empty())
+                    .collect();
+                let by_paths = path_proof::verify_update::<H>(root, &path_updates).unwrap_or_else(|e| panic!("per-path update verification failed: {:?} (key set {:#09b}, proofs {:#b}, pattern {})", e, mask, q, pattern));
+                assert!(by_paths == want, "per-path update verification returns another root than the updated trie (key set {:#09b}, proofs {:#b}, pattern {})", mask, q, pattern);
+                let by_multi = verify_update::<H>(&vm, ops.clone()).unwrap_or_else(|e| panic!("multi-proof update verification failed: {:?} (key set {:#09b}, proofs {:#b}, pattern {})", e, mask, q, pattern));
+                assert!(by_multi == want, "multi-proof update verification returns another root than the per-path verifier and the updated trie (key set {:#09b}, proofs {:#b}, pattern {})", mask, q, pattern);
+            }
+            multi_checked += 1;
+        }
+    }
+    assert!(multi_checked > 2000);
+}
